@@ -16,3 +16,16 @@ func TestMaskPos(t *testing.T) {
 		}
 	}
 }
+
+// TestEqualFor pins the comparison of concurrent programs.
+func TestEqualFor(t *testing.T) {
+	conc := "func main() {\n\tgo f(c)\n\tfmt.Println(1)\n}\n"
+	seq := "func main() {\n\tfmt.Println(1)\n}\n"
+	a := Behaviour{Out: "x\ny\nz\n", Outcome: "ok"}
+	b := Behaviour{Out: "y\nx\nz\n", Outcome: "ok"}
+	c := Behaviour{Out: "y\nx\nw\n", Outcome: "ok"}
+
+	if !a.EqualFor(conc, b) || a.EqualFor(seq, b) || a.EqualFor(conc, c) {
+		t.Errorf("EqualFor: conc/reordered=%v seq/reordered=%v conc/different=%v", a.EqualFor(conc, b), a.EqualFor(seq, b), a.EqualFor(conc, c))
+	}
+}
